@@ -352,6 +352,9 @@ where
                 ))
             })?;
 
+            // The size applies to this integer only, the next one may be longer
+            self.expected = None;
+
             return Poll::Ready(Ok((reult, stream_stopped)));
         }
     }
